@@ -39,7 +39,7 @@ SOURCES = ["c13_logrecord.cc", "c13_dispatch_full.cc", "c13_dispatch_prim_a.cc",
            "c13_dispatch_prim_c.cc", "c13_dispatch_prim_d.cc"]
 
 CFG = """CONSTANTS NT = %(NT)d  NS = %(NS)d  PipeNames = %(PipeNames)s  NRes = %(NRes)d
-          MaxRecs = %(MaxRecs)d  MaxSets = %(MaxSets)d  MaxArgs = %(MaxArgs)d  MaxFlush = %(MaxFlush)d  MaxNull = %(MaxNull)d
+          MaxRecs = %(MaxRecs)d  MaxSets = %(MaxSets)d  MaxArgs = %(MaxArgs)d  MaxFlush = %(MaxFlush)d  MaxNull = %(MaxNull)d  MaxAdd = %(MaxAdd)d
           LgSet = %(LgSet)s  MaxScope = %(MaxScope)d  MaxNest = %(MaxNest)d
           NSev = %(NSev)d  NBody = %(NBody)d  NTs = %(NTs)d  NId = %(NId)d  NFl = %(NFl)d  NAK = %(NAK)d  NAV = %(NAV)d
           MaxMap = %(MaxMap)d  NEv = %(NEv)d  NName = %(NName)d
@@ -55,7 +55,7 @@ BOTH = '{"%s", "%s"}' % (ALIAS, CRASH)
 
 
 def K(**kw):
-    d = dict(NT=1, NS=1, PipeNames='{"sb"}', NRes=1, MaxRecs=1, MaxSets=0, MaxArgs=1, MaxFlush=1, MaxNull=0, LgSet="{1}",
+    d = dict(NT=1, NS=1, PipeNames='{"sb"}', NRes=1, MaxRecs=1, MaxSets=0, MaxArgs=1, MaxFlush=1, MaxNull=0, MaxAdd=0, LgSet="{1}",
              MaxScope=1, MaxNest=1, NSev=0, NBody=0, NTs=0, NId=0, NFl=0, NAK=0, NAV=0, MaxMap=0, NEv=0, NName=0,
              GenDepth=0, Hist="FALSE", Dev="{}")
     d.update(kw)
@@ -64,7 +64,7 @@ def K(**kw):
 
 FULL_ALPHABET = dict(NSev=1, NBody=2, NTs=1, NId=1, NFl=1, NAK=1, NAV=2, MaxMap=1, NEv=1, NName=1)
 ACTIONS = ["DoScopeEnter", "DoScopeExit", "DoCreate", "DoSet", "DoBeginEmitRec", "DoBeginEmitNew", "DoBeginEmitNull",
-           "DoArg", "DoEndEmit", "Flush"]
+           "DoArg", "DoEndEmit", "Flush", "DoAddProc"]
 
 
 def _cfg(ctx, name, consts, extra):
@@ -105,6 +105,8 @@ def mc_jobs(ctx):
         ("fold-2args", args2, IDEAL_TAIL, "ok"),
         ("pipeline", K(NT=2, PipeNames='{"sb", "bhs"}', MaxRecs=2, NBody=1, NId=1), IDEAL_TAIL, "ok"),
         ("gates", K(MaxRecs=2, MaxNull=1, LgSet="{1, 3}", NBody=1), IDEAL_TAIL, "ok"),
+        # AddProcessor between CreateLogRecord and Emit and between records: 0->1, 1->2, 2->3 processors
+        ("addproc", K(PipeNames='{"e", "s", "b"}', MaxRecs=2, MaxAdd=2, NBody=1, MaxArgs=0 if not thorough else 1), IDEAL_TAIL, "ok"),
         ("as-implemented", dict(fold if thorough else pairs, Dev=BOTH), ASIMPL_TAIL, "ok"),
         # the deviations must really be in the model: TLC has to find the counterexamples
         ("cex-alias", dict(pairs, PipeNames='{"b"}', Dev='{"%s"}' % ALIAS), "VIEW View\nINVARIANTS ExportedEqualsEmitted", "invariant"),
@@ -169,16 +171,22 @@ WITNESSES = {
     "WitPartial": K(**dict(WBASE, NBody=0, NId=1)),
     "WitEmptyAttrs": K(**dict(WBASE, NBody=0, NAK=1, NAV=1, MaxMap=1)),
     "WitFlushMany": K(**dict(WBASE, PipeNames='{"b"}', MaxRecs=2, MaxArgs=0)),
+    # explicit all-zero identity / default flags over an active span: explicit still wins
+    "WitZeroId": K(**dict(WBASE, NBody=0, NId=1)), "WitZeroFlags": K(**dict(WBASE, NBody=0, NFl=1)),
+    # LoggerProvider::AddProcessor between CreateLogRecord and Emit (0->1, 1->2) and between records
+    "WitAddProc": K(**dict(WBASE, PipeNames='{"s"}', MaxAdd=1)), "WitAdd01": K(**dict(WBASE, PipeNames='{"e"}', MaxAdd=1)),
+    "WitAdd12": K(**dict(WBASE, PipeNames='{"s", "b"}', MaxAdd=1)),
+    "WitLateLater": K(**dict(WBASE, PipeNames='{"e", "s"}', MaxAdd=1, MaxRecs=2)),
 }
 SIM_SHAPES = [
     # (constants, walks per worker (x4 workers))
-    (K(NT=2, NS=7, PipeNames='{"s", "b", "sb", "bs", "sbh", "bhs", "bb", "h"}', NRes=2, MaxRecs=12, MaxSets=3, MaxArgs=3,
-       MaxFlush=4, MaxNull=2, LgSet="{1, 2, 3}", MaxScope=8, MaxNest=3, NSev=3, NBody=4, NTs=2, NId=3, NFl=3, NAK=3, NAV=4,
+    (K(NT=2, NS=7, PipeNames='{"e", "s", "b", "sb", "bs", "sbh", "bhs", "bb", "h"}', NRes=2, MaxRecs=12, MaxSets=3, MaxArgs=3,
+       MaxFlush=4, MaxNull=2, MaxAdd=2, LgSet="{1, 2, 3}", MaxScope=8, MaxNest=3, NSev=3, NBody=4, NTs=2, NId=3, NFl=3, NAK=3, NAV=4,
        MaxMap=2, NEv=2, NName=2, GenDepth=60, Hist="TRUE"), 1.0),
-    (K(NT=3, NS=5, PipeNames='{"sb", "bs", "bhs", "bb"}', NRes=2, MaxRecs=20, MaxSets=2, MaxArgs=2, MaxFlush=6, MaxNull=2,
+    (K(NT=3, NS=5, PipeNames='{"s", "b", "sb", "bs", "bhs", "bb"}', NRes=2, MaxRecs=20, MaxSets=2, MaxArgs=2, MaxFlush=6, MaxNull=2, MaxAdd=2,
        LgSet="{1, 2, 3}", MaxScope=12, MaxNest=3, NSev=2, NBody=4, NTs=2, NId=3, NFl=3, NAK=4, NAV=4, MaxMap=3, NEv=2, NName=2,
        GenDepth=90, Hist="TRUE"), 0.5),
-    (K(NT=1, NS=3, PipeNames='{"b", "sbh"}', NRes=1, MaxRecs=10, MaxSets=4, MaxArgs=3, MaxFlush=3, MaxNull=1, LgSet="{1, 3}",
+    (K(NT=1, NS=3, PipeNames='{"e", "b", "sbh"}', NRes=1, MaxRecs=10, MaxSets=4, MaxArgs=3, MaxFlush=3, MaxNull=1, MaxAdd=1, LgSet="{1, 3}",
        MaxScope=4, MaxNest=2, NSev=6, NBody=6, NTs=3, NId=3, NFl=3, NAK=2, NAV=6, MaxMap=2, NEv=3, NName=3, GenDepth=50,
        Hist="TRUE"), 0.5),
 ]
@@ -535,7 +543,8 @@ def run(ctx):
     if stats["exports"] == 0 or stats["compared"] == 0:
         raise Broken("vacuity: no exported record was compared")
     log("C13 arena replay done %.0fs" % ctx.timer.s())
-    selftest(ctx, exe, insts)
+    if not ctx.violations:       # (on a tree that already violates, the self-test behaviour itself may crash)
+        selftest(ctx, exe, insts)
     # by-product: behaviours on which the code behaved ideally, again with really freed caller buffers
     if clean and not ctx.violations:
         again = [dict(b, mode="realfree") for b in clean]
